@@ -9,7 +9,7 @@ import numpy as np
 
 from vp.registry import contract
 from . import builders as B
-from .state import state_of, compare_states
+from .state import state_of, compare_states, independent
 
 TRUSTED = []
 ASSUMPTIONS = [
@@ -169,6 +169,7 @@ def label_selection(ctx, n_points, cover, edges):
         keep, idx, sub_adj = expect(sel_names)
         ctx.check_true(tag + '/labels-in-original-order', got.labels == list(sel_names), '%s vs %s' % (got.labels, list(sel_names)))
         ctx.check_eq(tag + '/exactly-the-points-under-the-labels', got.points, np.asarray(pts)[idx])
+        independent(ctx, tag + '/result-shares-no-mutable-storage-with-the-receiver', got, lg)
         ctx.check_true(tag + '/induced-edges', np.array_equal(got.adjacency_matrix.toarray() != 0, sub_adj))
         for nm in sel_names:
             if nm in got._labels_to_masks:
